@@ -17,6 +17,7 @@
                       operands with compatible directions are merged by np.union1d, reversed iff the common direction is decreasing
   R11 empty label sets first / last labels are read only under a size guard (_common_axis, union, intersection); reindexing from an
                       empty source axis (np.take from empty raises) must be guarded
+  R12 datasets        Dataset.reindex_axis (used when a Dataset is in the list) against DimArray.reindex_axis (rule shared with C14)
   R9 common kind      _get_cast_kind evaluated on every pair of kinds: equal -> same, object wins, float over int
 """
 from .. import terms as T
@@ -718,6 +719,10 @@ def check(ctx):
     # the reindex step that align() delegates to (each input keeps its data at its labels, NaN elsewhere)
     from . import c07
     c07.rule_pipeline(ctx, rid='R7')
+    # Datasets in the list are re-indexed by Dataset.reindex_axis: the sibling cross-check of C14
+    from . import c14
+    from ..report import Renamed
+    c14.rule_reindex(Renamed(ctx, {'*': 'R12'}))
     d = default_of(ctx.fn(AL + 'align'), 'join')
     if d != const('outer'):
         ctx.violated('R2', ctx.fn(AL + 'align'), 'def align(join=...)', "align defaults to join='outer'")
